@@ -98,6 +98,29 @@ fn corpus_build() -> Vec<(&'static str, P)> {
     v.push(("parallel_dependencies_80", POh { w: vec![0; 80], e: vec![PEdge { l: 0, s: vec![], t: (0..80).collect() }, PEdge { l: 1, s: (0..80).rev().collect(), t: vec![] }], s: vec![], t: vec![] }));
     // ring of 600 operations with a tail of 300 hanging off it and 300 independent ones in a chain
     v.push(("stress_ring_with_tail", ring_with_tail(600, 300, 300, 11)));
+    // one layer with 1100 producers feeding 1100 consumers (1100 dependency edges relaxed at once), shuffled
+    v.push(("layer_with_more_than_1024_dependencies", {
+        let m = 1100;
+        let mut e: Vec<PEdge<u64>> = (0..m).map(|k| PEdge { l: 0, s: vec![], t: vec![k] }).collect();
+        e.extend((0..m).map(|k| PEdge { l: 1, s: vec![k], t: vec![] }));
+        let p = POh { w: vec![0; m], e, s: vec![], t: vec![] };
+        let mut r = Rng(17);
+        let eo = r.perm(p.e.len());
+        let np = r.perm(m);
+        p.renumber(&np, &eo)
+    }));
+    // one node shared by 2000 consumers, then a second layer behind them
+    v.push(("fanout_2000", {
+        let m = 2000;
+        let mut e: Vec<PEdge<u64>> = vec![PEdge { l: 0, s: vec![], t: vec![0] }];
+        e.extend((0..m).map(|k| PEdge { l: 1, s: vec![0], t: vec![1 + k] }));
+        e.push(PEdge { l: 2, s: (1..=m).step_by(7).collect(), t: vec![] });
+        let p = POh { w: vec![0; m + 1], e, s: vec![], t: vec![] };
+        let mut r = Rng(19);
+        let eo = r.perm(p.e.len());
+        let np = r.perm(m + 1);
+        p.renumber(&np, &eo)
+    }));
     v
 }
 
@@ -479,6 +502,8 @@ impl Monitor for C15 {
             ("class:multiplicity_80", 1),
             ("class:parallel_dependencies_80", 1),
             ("class:stress_ring_with_tail", 1),
+            ("class:layer_with_more_than_1024_dependencies", 1),
+            ("class:fanout_2000", 1),
             ("api:dense_relative_indegree", 100),
             ("api:sparse_relative_indegree", 100),
             ("api:node_adjacency_from_incidence", 500),
